@@ -86,6 +86,8 @@ class Tiny:
             raise AnalysisError(f"tiny: subscript {ast.unparse(e)}")
         if isinstance(e, ast.BinOp) and isinstance(e.op, (ast.Mod, ast.LShift, ast.RShift, ast.BitOr, ast.BitAnd, ast.BitXor, ast.FloorDiv, ast.Pow)):
             l, r = self.ev(e.left), self.ev(e.right)
+            if isinstance(e.op, ast.BitXor) and (isinstance(l, Sym) or isinstance(r, Sym)):
+                return ("xor", l, r)  # symbolic octets
             if isinstance(l, int) and isinstance(r, int):
                 import operator
                 return {ast.Mod: operator.mod, ast.LShift: operator.lshift, ast.RShift: operator.rshift, ast.BitOr: operator.or_, ast.BitAnd: operator.and_,
@@ -109,7 +111,12 @@ class Tiny:
                 elif isinstance(op, (ast.Is, ast.IsNot)):
                     r = (a is b) if isinstance(op, ast.Is) else (a is not b)
                 else:
-                    r = {ast.Eq: a == b, ast.NotEq: a != b, ast.Lt: a < b, ast.LtE: a <= b, ast.Gt: a > b, ast.GtE: a >= b}[type(op)]
+                    import operator
+                    fop = {ast.Eq: operator.eq, ast.NotEq: operator.ne, ast.Lt: operator.lt, ast.LtE: operator.le, ast.Gt: operator.gt, ast.GtE: operator.ge}[type(op)]
+                    try:
+                        r = fop(a, b)
+                    except TypeError:
+                        raise TinyRaise("TypeError")
                 if not r:
                     return False
             return True
@@ -127,6 +134,8 @@ class Tiny:
             return -self.ev(e.operand)
         if isinstance(e, ast.JoinedStr):
             return "<text>"
+        if isinstance(e, (ast.GeneratorExp, ast.ListComp)) and len(e.generators) == 1 and not e.generators[0].is_async:
+            return list(self._comp(e))
         if isinstance(e, ast.IfExp):
             return self.ev(e.body) if self.truth(self.ev(e.test)) else self.ev(e.orelse)
         if isinstance(e, ast.Call):
@@ -139,6 +148,8 @@ class Tiny:
                     recv = None
                 if isinstance(recv, int) and not isinstance(recv, bool) and e.func.attr == "to_bytes":
                     return ("octets", recv)
+                if isinstance(recv, list) and e.func.attr in ("tobytes", "tolist") and not e.args:
+                    return list(recv)
                 if isinstance(recv, Buf) and len(recv) == 0 and e.func.attr == "join" and len(e.args) == 1:
                     parts = self.ev(e.args[0])
                     if isinstance(parts, list) and parts and all(isinstance(x, Buf) for x in parts):
@@ -150,6 +161,15 @@ class Tiny:
                     kwargs = {k.arg: self.ev(k.value) for k in e.keywords if k.arg is not None}
                     self.trace.append((f"{recv.name}.{e.func.attr}", args, kwargs))
                     return recv.methods[e.func.attr](*args, **kwargs)
+            if f in ("any", "all") and len(e.args) == 1 and isinstance(e.args[0], (ast.GeneratorExp, ast.ListComp)) and len(e.args[0].generators) == 1:
+                for v in self._comp(e.args[0]):  # lazily, like the builtin
+                    if self.truth(v) == (f == "any"):
+                        return f == "any"
+                return f != "any"
+            if f == "zip" and len(e.args) == 2:
+                a_, b_ = self.ev(e.args[0]), self.ev(e.args[1])
+                if isinstance(a_, (list, tuple)) and isinstance(b_, (list, tuple)):
+                    return [list(x) for x in zip(a_, b_)]
             if f in ("range", "xrange") and 1 <= len(e.args) <= 3 and not e.keywords:
                 vals = [self.ev(a) for a in e.args]
                 if all(isinstance(v, int) for v in vals) and len(range(*vals)) <= 4096:
@@ -168,7 +188,8 @@ class Tiny:
             if f in ("min", "max") and e.args:
                 return (min if f == "min" else max)(self.ev(a) for a in e.args)
             if f in ("bytes", "bytearray", "memoryview") and len(e.args) == 1:
-                return self.ev(e.args[0])
+                v = self.ev(e.args[0])
+                return list(v) if isinstance(v, (list, tuple)) else v
             if f in ("tuple", "list") and len(e.args) <= 1 and not e.keywords:
                 if not e.args:
                     return []
@@ -241,6 +262,31 @@ class Tiny:
             raise AnalysisError(f"tiny: call {t[:60]}")
         raise AnalysisError(f"tiny: expression {ast.unparse(e)[:60]}")
 
+    def _comp(self, e):
+        g = e.generators[0]
+        seq = self.ev(g.iter)
+        if isinstance(seq, dict):
+            seq = list(seq)
+        if not isinstance(seq, (list, tuple)):
+            raise AnalysisError(f"tiny: comprehension over {seq!r}")
+        saved = dict(self.env)
+        try:
+            for item in list(seq):
+                if isinstance(g.target, ast.Name):
+                    self.env[g.target.id] = item
+                elif isinstance(g.target, ast.Tuple) and isinstance(item, (list, tuple)) and len(item) == len(g.target.elts):
+                    for x, vv in zip(g.target.elts, item):
+                        self.env[norm.text(x)] = vv
+                else:
+                    raise AnalysisError("tiny: comprehension target")
+                if all(self.truth(self.ev(c)) for c in g.ifs):
+                    yield self.ev(e.elt)
+        finally:
+            for k in list(self.env):
+                if k not in saved:
+                    del self.env[k]
+            self.env.update(saved)
+
     @staticmethod
     def truth(v):
         return len(v) > 0 if isinstance(v, Buf) else bool(v)
@@ -295,8 +341,16 @@ class Tiny:
                        ast.LShift: operator.lshift, ast.RShift: operator.rshift, ast.BitXor: operator.xor}
                 if type(st.op) not in ops or isinstance(cur, Buf) or isinstance(v, Buf):
                     raise AnalysisError(f"tiny: augmented assignment {ast.unparse(st)[:40]}")
-                val = ops[type(st.op)](cur, v)
+                if isinstance(st.op, ast.BitXor) and (isinstance(cur, Sym) or isinstance(v, Sym)):
+                    val = ("xor", cur, v)
+                else:
+                    val = ops[type(st.op)](cur, v)
                 tt = st.target
+                if isinstance(tt, ast.Subscript) and not isinstance(tt.slice, ast.Slice) and norm.text(tt) not in self.env:
+                    base = self.ev(tt.value)
+                    if isinstance(base, (list, dict)):
+                        base[self.ev(tt.slice)] = val
+                        continue
                 if isinstance(tt, ast.Attribute) and norm.text(tt) not in self.env:
                     try:
                         base = self.ev(tt.value)
